@@ -4,7 +4,7 @@
 //! trusted: assume_specification for core::cmp::max / core::cmp::min / Result::unwrap_or (std definitions); trait FeeEstimator is reduced to get_est_sat_per_1000_weight with an unconstrained result (any estimator); trait Logger empty (R3 removes log statements)
 //! assume: compute_package_feerate: the fee estimator never returns more than u32::MAX/5 = 858_993_459 sat/kW (`feerate_estimate * 5` is computed in u32; observation O4 in DESIGN)
 //! trusted: payload structs of PackageSolvingData (RevokedOutput, ... HolderHTLCOutput) are skeletons keeping the fields the code reads; PackageSolvingData::amount() is external_body with an uninterpreted result; BitcoinOutPoint opaque; AggregationCluster is extracted, its derived == is modelled as structural equality
-//! trusted: R15 (deep slice): handle_channel_close (async, wallet coin selection, PSBTs): the unit extracts the test that decides whether the pre-signed commitment is broadcast as is, verbatim, as a function of (commitment weight, its fee, the target feerate), checked against the proved contract of compute_feerate_sat_per_1000_weight; coin selection and the anchor transaction are dropped and not claimed; Transaction/Weight are stubs {weight}
+//! trusted: R15 (deep slice): handle_channel_close (async, wallet coin selection, PSBTs): the unit extracts the test that decides whether the pre-signed commitment is broadcast as is, verbatim, as a function of (commitment weight, its fee, the target feerate), checked against the proved contract of compute_feerate_sat_per_1000_weight; and, as a second slice with captures, the statements that build the fee-credited copy of the anchor output for coin selection and the statement that records the anchor's previous output in the PSBT the wallet signs (bitcoin::Amount `+=` written as a checked add on a u64 stub, R8); coin selection and the rest of the anchor transaction are dropped and not claimed; Transaction/Weight/TxOut/AnchorDescriptor are stubs
 //! trusted: R6: in merge_package `for (k, v) in merge_from.inputs.drain(..) { self.inputs.push((k, v)); }` becomes `self.inputs.append(&mut merge_from.inputs)` (same effect on both vectors); R5: the `mut` by-value parameter is rebound to a local
 //! trusted: R6: `.iter().find_map(|(_, outp)| V)` and `.iter().filter_map(|(_, outp)| V).max()` in PackageTemplate::signed_locktime / package_locktime become index loops carrying V verbatim
 //! assume: HolderHTLCOutput invariant (preimage is Some ==> cltv_expiry == 0, established by its constructors, checked by a debug_assert in the source); PackageTemplate::signed_locktime is extracted with cfg(debug_assertions) off (its debug-only consistency loop is dropped)
@@ -72,6 +72,36 @@ impl TransactionStub { #[verifier::external_body] pub fn weight(&self) -> (r: We
     commitment_tx_feerate_sat_per_1000_weight >= package_target_feerate_sat_per_1000_weight
 //@with
     commitment_tx_feerate_sat_per_1000_weight * 2 >= package_target_feerate_sat_per_1000_weight
+//@end
+
+// ---- anchor bump: coin selection sees the anchor credited with the commitment's own fee, the wallet signs over the real previous output (R15 slice with captures of handle_channel_close) ----
+#[derive(Clone, Copy)] pub struct Amount(pub u64);
+impl Amount {
+    pub fn from_sat(s: u64) -> (r: Amount) ensures r.0 == s { Amount(s) }
+    pub fn plus(self, o: Amount) -> (r: Amount) requires self.0 + o.0 <= u64::MAX ensures r.0 == self.0 + o.0 { Amount(self.0 + o.0) }
+}
+#[derive(Clone, Copy)] pub struct TxOutStub { pub value: Amount, pub script: u64 }
+pub struct AnchorDescriptor { pub prev: TxOutStub }
+impl AnchorDescriptor { #[verifier::external_body] pub fn previous_utxo(&self) -> (r: TxOutStub) ensures r == self.prev { unimplemented!() } }
+//@extract lightning/src/events/bump_transaction/mod.rs :: impl BumpTransactionEventHandler :: fn handle_channel_close
+//@capture R15
+    let mut anchor_utxo = $au; let commitment_tx_fee_sat = $cf; let commitment_tx_weight = $cw; anchor_utxo.value += $add;
+//@slice R15
+    anchor_psbt.inputs[0].witness_utxo = Some($w);
+//@with
+    fn anchor_input_values(anchor_descriptor: &AnchorDescriptor, commitment_tx_fee_sat_: u64) -> (TxOutStub, TxOutStub) {
+        let commitment_tx_fee_sat = commitment_tx_fee_sat_;
+        let mut anchor_utxo = $au;
+        let commitment_tx_fee_sat = $cf;
+        anchor_utxo.value = anchor_utxo.value.plus($add);   // R8: `anchor_utxo.value += X` on bitcoin::Amount
+        (anchor_utxo.clone(), $w)
+    }
+//@ret r
+//@requires
+    anchor_descriptor.prev.value.0 + commitment_tx_fee_sat_ <= u64::MAX,
+//@ensures P C07 the-anchor-child-is-signed-over-the-anchors-real-previous-output-while-coin-selection-credits-it-with-the-fee-the-commitment-already-pays
+    r.0.value.0 == anchor_descriptor.prev.value.0 + commitment_tx_fee_sat_ && r.0.script == anchor_descriptor.prev.script,
+    r.1 == anchor_descriptor.prev,
 //@end
 
 pub open spec fn valid_w(w: u64) -> bool { 100 <= w <= 4_000_000 }
